@@ -514,6 +514,7 @@ class C01(Property):
         "the populated element's state is extracted from the real element after set(); the model recomputes flatten, from_flat and both round trips",
     ]
     assumptions = [
+        "a quarter of the generated trees get 1-3 later set() calls on single scalar leaves (values of the kind, text, None, non-text values no scalar adapts); members of a JoinedString are not set individually here: a member of a pruning JoinedString set to '' is KF-C18-a, reported by the C18 check",
         "SepSafe(sep, names): stronger than 'the separator does not occur in names' (overlaps are KF-C01-a)",
         "OkS(e): every scalar text is a fixpoint of its own set() (else KF-C01-b/c/f/h/i), mapping keys are declared fields, Array members are scalars; decided by the Lean runner (okSB, proved sound) and, independently, by the harness (ok_state) — the two answers are compared on every case (key thm_hyp)",
         "the theorems assume no List is longer than its maximum_set_flat_members (default 1024); longer lists are truncated by from_flat — recorded as KF-C01-g and exercised by 30% of the generated cases",
@@ -566,7 +567,14 @@ class C01(Property):
                     schema = fl.gen_schema(rng, sep, rng.choice([2, 3, 3, 4]), kinds)
             if rng.random() < 0.7:
                 force_max(schema)      # most cases keep the ceiling out of the way; the rest exercise KF-C01-g
-            yield {"schema": schema, "kinds": kinds, "sep": sep, "value": fl.gen_value(rng, schema, kinds, hostile=0.12)}
+            case = {"schema": schema, "kinds": kinds, "sep": sep, "value": fl.gen_value(rng, schema, kinds, hostile=0.12)}
+            if rng.random() < 0.25:
+                # "populated with set()" also means set() on single members afterwards: some scalar leaves of the
+                # populated tree are set again (1-3 times), with values of their kind, with text, and with values
+                # no scalar adapts (a list, a dict): a rejected second set() must not leave the first one's native
+                # value behind (seeded C01-rejected-nontext-keeps-value)
+                case["resets"] = [_gen_reset(rng, kinds) for _ in range(rng.randint(1, 3))]
+            yield case
 
     def _trip(self, case):
         schema, kinds, sep = case["schema"], case["kinds"], case["sep"]
@@ -576,6 +584,17 @@ class C01(Property):
             el.set(fl.decode_native(case["value"]))
         except (KeyError, TypeError, ValueError) as e:
             return None, "set() rejected the value: %s" % type(e).__name__
+        for r in case.get("resets", ()):
+            # leaves of the FLAT form: a JoinedString is one leaf; its members are not set individually here (a
+            # member of a pruning JoinedString set to '' is KF-C18-a, reported by the C18 check)
+            leaves = _flat_leaves(el, schema)
+            if not leaves:
+                break
+            leaf, ls = leaves[r["leaf"] % len(leaves)]
+            v = r["v"]
+            if isinstance(v, dict) and "kindv" in v:
+                v = v["kindv"][ls["k"] % len(v["kindv"])]
+            leaf.set(fl.decode_native(v))     # scalar set() reports failure by its flag, it does not raise
         f0 = el.flatten(sep)
         el1 = cls()
         el1.set_flat(f0, sep)
@@ -790,6 +809,10 @@ class C01(Property):
         if "raise" in obs:
             return ["raised-" + obs["raise"]]
         t = ["pairs=%d" % min(len(obs["flatten"]), 20), "sep=%r" % case["sep"]]
+        if case.get("resets"):
+            t.append("leaf-resets=%d" % len(case["resets"]))
+            if any(isinstance(r["v"], list) or (isinstance(r["v"], dict) and "d" in r["v"]) for r in case["resets"]):
+                t.append("leaf-reset-with-unadaptable-non-text")
         if obs["rt_flatten"] != obs["flatten"]:
             t.append("pruned-or-changed")
         for s in fl.walk_schema(case["schema"]):
@@ -832,7 +855,49 @@ class C01(Property):
         return list(dict.fromkeys(t))
 
     def shrink_candidates(self, case):
+        rs = case.get("resets")
+        if rs:
+            for i in range(len(rs)):
+                c = copy.deepcopy(case)
+                del c["resets"][i]
+                if not c["resets"]:
+                    del c["resets"]
+                yield c
         yield from _shrink_schema_value(case)
+
+
+def _flat_leaves(el, s):
+    """(element, schema) of every scalar leaf that is not a member of a JoinedString, in walk order"""
+    out = []
+    t = s["t"]
+    if t == "leaf":
+        out.append((el, s))
+    elif t in ("dict", "compound"):
+        fields = {f["name"]: f for f in s["fields"]}
+        for k, v in dict.items(el):
+            if k in fields:
+                out += _flat_leaves(v, fields[k])
+    elif t == "list":
+        for m in el:
+            out += _flat_leaves(m, s["member"])
+    elif t == "array":
+        for m in list.__iter__(el):
+            out += _flat_leaves(m, s["member"])
+    return out
+
+
+def _gen_reset(rng, kinds):
+    """one later set() on a scalar leaf: which leaf (index into the leaves in walk order, modulo) and the value — a
+    value generated for each kind of the case (picked by the leaf's kind when it runs), plain text, None, or a
+    non-text value that no scalar adapts"""
+    r = rng.random()
+    if r < 0.3:
+        v = rng.choice([[{"i": 1}, {"i": 2}], [], [{"s": "x"}], {"d": [["a", {"i": 1}]]}, {"d": []}])
+    elif r < 0.4:
+        v = rng.choice([{"none": 1}, {"s": ""}, {"s": "junk"}, {"s": " 7 "}])
+    else:
+        v = {"kindv": [fl.gen_leaf_value(rng, k) for k in kinds] or [{"s": "x"}]}
+    return {"leaf": rng.randrange(64), "v": v}
 
 
 PROP = C01()
